@@ -113,6 +113,7 @@ class Ctx:
         self.heap0: dict[str, object] = {}
         self.written: set[str] = set()
         self._wf_done: set = set()
+        self._assumed_goals: set = set()
 
     # -- fresh symbols -----------------------------------------------------
     def fresh(self, ty: Ty, hint: str = "v") -> SV:
@@ -190,12 +191,13 @@ class Ctx:
         # assume it from here on so one failure is reported once
         if not z3.is_false(goal):
             self.pc.append(goal)
+            self._assumed_goals.add(goal.get_id())
         else:
             raise PathEnd()
 
     def cover(self, name: str, line=None):
         self.obligations.append(
-            Obligation(name, list(self.pc) + self.axioms(), z3.BoolVal(True), self.path_id, "cover", line, list(self.inputs), cover=True)
+            Obligation(name, [a for a in self.pc if a.get_id() not in self._assumed_goals] + self.axioms(), z3.BoolVal(True), self.path_id, "cover", line, list(self.inputs), cover=True)
         )
 
     # -- decisions ---------------------------------------------------------
